@@ -75,15 +75,8 @@ def check(R, F):
     R.floor('rcode-table', 9)
     R.floor('rcode-final', 5)
     # ---- (d) longest match
-    lic = F.fn('db::hash_map_tree::catalog::lookup_in_class')
-    ors = calls_in(lic, 'Option::<T>::or')
-    ok = len(ors) == 1
-    if ok:
-        recv = slice_of(lic, ors[0][1]['args'][0])
-        alt = slice_of(lic, ors[0][1]['args'][1])
-        ok = any(n.endswith('catalog::lookup_in_class') for n in recv.call_names()) and not any(n.endswith('catalog::lookup_in_class') for n in alt.call_names())
-    R.require(ok, 'longest-match', 'db::hash_map_tree::catalog::lookup_in_class|deeper-first', lic.where(), 'deeper match preferred', 'lookup_in_class no longer prefers the deeper match')
-
+    from rules.name_rules import check_longest_match
+    check_longest_match(R, F)
     # ---- (e) suffix matching is label-wise
     from rules.name_rules import check_label_suffix
     check_label_suffix(R, F)
